@@ -57,12 +57,36 @@ func render(v any) string {
 	return string(b)
 }
 
+// hostileUints are scalar values whose first (little-endian) byte is JSON syntax, whitespace, or an
+// extreme; the upper bytes are optionally randomised.
+var hostileUints = []uint64{'{', '[', '"', ' ', '\n', '\t', '}', ']', 'n', 't', 'f', '0', '-', 0, 1, 0xff, 0x7b7b7b7b7b7b7b7b, 0x207b, 0x0a7b, 1<<63 | '{', ^uint64(0), 1 << 32}
+
 func TestC14RoundTrip(t *testing.T) {
 	vstat.Rule("C14", ruleRT)
 	rapid.Check(t, func(rt *rapid.T) {
 		k := valgen.Kinds[rapid.IntRange(0, len(valgen.Kinds)-1).Draw(rt, "kind")]
 		seed := int64(rapid.IntRange(1, 1<<30).Draw(rt, "seed"))
 		ptr := valgen.GenPtr(t, k, seed)
+		// Encodings are sniffed by their leading bytes (SSZ first, JSON second), so slots, indices and
+		// amounts are also set to values whose little-endian bytes look like JSON or are extreme.
+		hostile := ""
+		if leaves := valgen.Uint64Leaves(ptr); len(leaves) > 0 && rapid.IntRange(0, 2).Draw(rt, "hostile") > 0 {
+			nset := rapid.IntRange(1, min(3, len(leaves))).Draw(rt, "hostile_n")
+			for j := 0; j < nset; j++ {
+				var li int
+				if rapid.Bool().Draw(rt, "hostile_first") {
+					li = rapid.IntRange(0, min(2, len(leaves)-1)).Draw(rt, "leaf_head")
+				} else {
+					li = rapid.IntRange(0, len(leaves)-1).Draw(rt, "leaf")
+				}
+				x := rapid.SampledFrom(hostileUints).Draw(rt, "hostile_value")
+				if rapid.Bool().Draw(rt, "hostile_high") {
+					x |= uint64(rapid.IntRange(0, 1<<20).Draw(rt, "high")) << 8
+				}
+				leaves[li].Set(x)
+				hostile = leaves[li].Path
+			}
+		}
 		val := reflect.ValueOf(ptr).Elem().Interface()
 		want := render(val)
 		if strings.HasPrefix(want, "RENDER-ERROR") {
@@ -196,7 +220,7 @@ func TestC14RoundTrip(t *testing.T) {
 				rt.Fatalf("CLONE: %s clone shares memory with the original at %s", k.Name, sh[0].Path)
 			}
 		}
-		vstat.Case(fmt.Sprintf("rt/%s/%d", k.Name, seed), true, "roundtrip:"+k.Name)
+		vstat.Case(fmt.Sprintf("rt/%s/%d/%s", k.Name, seed, hostile), true, "roundtrip:"+k.Name, cls("roundtrip_with_hostile_scalar", hostile != ""))
 		if vstat.WantSample("roundtrip:" + k.Name) {
 			vstat.Sample("roundtrip:"+k.Name, map[string]any{"type": k.Name, "fuzzer_seed": seed, "json_bytes": len(want)})
 		}
